@@ -198,7 +198,11 @@ def gen_value(rng, sch, t, depth):
     if kind == "scalar":
         return gen_scalar(rng, name)
     if kind == "enum":
-        return ("e", name, rng.choice(enum_values(sch, name)))
+        vals = enum_values(sch, name)
+        if rng.random() < 0.2:
+            # proto3 enums are open: a number without a member is a legal value under every option set
+            return ("e", name, rng.choice([n for n in (7, -7, 123456, -2147483648, 2147483647) if n not in vals]))
+        return ("e", name, rng.choice(vals))
     if kind == "wrap":
         return gen_scalar(rng, WRAPPERS[name.split(".")[-1]])
     if kind == "ts":
@@ -286,7 +290,7 @@ class Variant:
         if k == "y":
             return bytes.fromhex(v[1])
         if k == "e":
-            return self.cls(v[1])(v[2])
+            return self.cls(v[1]).try_value(v[2])
         if k == "t":
             return EPOCH + datetime.timedelta(microseconds=v[1])
         if k == "d":
